@@ -89,9 +89,13 @@ Fixpoint mx_trylock_env (pc : mx_tlpc) (ws : list Z) : option bool * list Z :=
    MutexWordProofs.mx_trylock_rec_refines shows that the record-level TryLock steps are exactly
    [mx_trylock_step] on the encoded word.
    Oracles (runtime decisions that are not functions of the word) are arguments of the Lock
-   operation: [spin] = runtime_canSpin answers true once (the spin branch, which may set
-   mutexWoken, is taken on the first iteration where the word allows it); [starve] = after a
-   wake-up the waiter finds it has waited for more than 1 ms.  All four combinations, per call.
+   operation, both arbitrary natural numbers per call:
+   [spin] = how many times runtime_canSpin(iter) answers true during the call (every loop
+   iteration that finds the word locked and not starving asks it and consumes one answer; the
+   runtime's bound of 4 per round -- iter is reset after a wake-up -- is a special case);
+   [starve] = at how many wake-ups the waiter finds runtime_nanotime()-waitStartTime <= 1 ms;
+   every later wake-up finds it exceeded (waitStartTime is set once, at the first sleep, and
+   the clock is monotone, so the answers are false^starve true^omega; the local flag is sticky).
    The semaphore m.sema is a token counter: Semrelease adds a token, a thread parked in
    SemacquireMutex is enabled when a token is available (queue order and direct hand-off of
    the runtime are irrelevant for safety).  throw/fatal are the dead pc [XDead]. *)
@@ -106,16 +110,16 @@ Definition mx_w_eqb (a b : mx_w) : bool :=
 Definition mx_is_zero (r : mx_w) : bool := mx_w_eqb r mx_zero.
 Definition mx_set_l (r : mx_w) (b : bool) : mx_w := {| xl := b; xk := xk r; xs := xs r; xn := xn r |}.
 
-Inductive mx_op := XLock (spin starve : bool) | XTryLock | XUnlock.
+Inductive mx_op := XLock (spin starve : nat) | XTryLock | XUnlock.
 
 Inductive mx_pc :=
 | XIdle
-| XLFast (sp st : bool)                     (* Lock: CAS(&m.state, 0, mutexLocked) *)
-| XLLoad (sp st awoke stv : bool)           (* lockSlow: old = m.state *)
-| XLSpin (st : bool) (old : mx_w)           (* spin branch: CAS(&m.state, old, old|mutexWoken) *)
-| XLCas (st awoke stv : bool) (old : mx_w)  (* CAS(&m.state, old, new) *)
-| XLSleep (st stv : bool)                   (* runtime_SemacquireMutex(&m.sema, ..) *)
-| XLWoke (st stv : bool)                    (* after the wake-up: old = m.state *)
+| XLFast (sp st : nat)                      (* Lock: CAS(&m.state, 0, mutexLocked) *)
+| XLLoad (sp st : nat) (awoke stv : bool)   (* lockSlow: old = m.state *)
+| XLSpin (sp st : nat) (old : mx_w)         (* spin branch: CAS(&m.state, old, old|mutexWoken) *)
+| XLCas (sp st : nat) (awoke stv : bool) (old : mx_w)  (* CAS(&m.state, old, new) *)
+| XLSleep (sp st : nat) (stv : bool)        (* runtime_SemacquireMutex(&m.sema, ..) *)
+| XLWoke (sp st : nat) (stv : bool)         (* after the wake-up: old = m.state *)
 | XLHand (exit : bool)                      (* hand-off: atomic.AddInt32(&m.state, delta) *)
 | XT1                                       (* TryLock: CAS(0, locked) *)
 | XT2                                       (* TryLock: load *)
@@ -167,33 +171,38 @@ Definition mx_step_th (r : mx_w) (t : nat) (th : mx_thread) : mx_w * nat * mx_th
       if mx_is_zero r then (mx_set_l r true, t, mx_mkth XIdle true todo, XEAcq 0)
       else (r, t, mx_mkth (XLLoad sp st false false) h todo, XEInt)
   | XLLoad sp st awoke stv =>
-      if xl r && negb (xs r) && sp then
-        (* spin branch *)
+      if xl r && negb (xs r) && negb (sp =? 0) then
+        (* spin branch: canSpin answered true; doSpin; iter++; old = m.state (next XLLoad) *)
         if negb awoke && negb (xk r) && negb (xn r =? 0)
-        then (r, t, mx_mkth (XLSpin st r) h todo, XEInt)
-        else (r, t, mx_mkth (XLLoad false st awoke stv) h todo, XEInt)
-      else (r, t, mx_mkth (XLCas st awoke stv r) h todo, XEInt)
-  | XLSpin st old =>
+        then (r, t, mx_mkth (XLSpin (pred sp) st r) h todo, XEInt)
+        else (r, t, mx_mkth (XLLoad (pred sp) st awoke stv) h todo, XEInt)
+      else (r, t, mx_mkth (XLCas sp st awoke stv r) h todo, XEInt)
+  | XLSpin sp st old =>
       if mx_w_eqb r old
-      then ({| xl := xl r; xk := true; xs := xs r; xn := xn r |}, t, mx_mkth (XLLoad false st true false) h todo, XEInt)
-      else (r, t, mx_mkth (XLLoad false st false false) h todo, XEInt)
-  | XLCas st awoke stv old =>
+      then ({| xl := xl r; xk := true; xs := xs r; xn := xn r |}, t, mx_mkth (XLLoad sp st true false) h todo, XEInt)
+      else (r, t, mx_mkth (XLLoad sp st false false) h todo, XEInt)
+  | XLCas sp st awoke stv old =>
       if awoke && negb (xk old) then (r, t, mx_mkth XDead h todo, XEPanic)
       else if mx_w_eqb r old then
         if negb (xl old) && negb (xs old)
         then (mx_slow_new awoke stv old, t, mx_mkth XIdle true todo, XEAcq 1)
-        else (mx_slow_new awoke stv old, t, mx_mkth (XLSleep st stv) h todo, XEInt)
-      else (r, t, mx_mkth (XLLoad false st awoke stv) h todo, XEInt)
-  | XLSleep st stv =>
+        else (mx_slow_new awoke stv old, t, mx_mkth (XLSleep sp st stv) h todo, XEInt)
+      else (r, t, mx_mkth (XLLoad sp st awoke stv) h todo, XEInt)
+  | XLSleep sp st stv =>
       match t with
       | O => (r, t, th, XEBlocked)
-      | S t' => (r, t', mx_mkth (XLWoke st (stv || st)) h todo, XEInt)
+      | S t' => (r, t', mx_mkth (XLWoke sp (pred st) (stv || (st =? 0))) h todo, XEInt)
       end
-  | XLWoke st stv =>
+  | XLWoke sp st stv =>
       if xs r then
         if xl r || xk r || (xn r =? 0) then (r, t, mx_mkth XDead h todo, XEPanic)
         else (r, t, mx_mkth (XLHand (negb stv || (xn r =? 1))) h todo, XEInt)
-      else (r, t, mx_mkth (XLCas st true stv r) h todo, XEInt)
+      else
+        (* awoke = true; iter = 0; back to the loop head with this [old]: the spin test (no
+           CAS for an awoke thread, just doSpin and old = m.state), else the CAS *)
+        if xl r && negb (sp =? 0)
+        then (r, t, mx_mkth (XLLoad (pred sp) st true stv) h todo, XEInt)
+        else (r, t, mx_mkth (XLCas sp st true stv r) h todo, XEInt)
   | XLHand exit =>
       (* AddInt32(mutexLocked - 1<<mutexWaiterShift [- mutexStarving]) is field-wise only on a
          word with locked = 0, waiters >= 1 (and starving = 1 when it is subtracted) *)
